@@ -130,7 +130,7 @@ class Plan:
     def to_json(self):
         return {
             "faults": [[list(c), t, i, k] for (c, t, i), k in self.faults.items()],
-            "rules": [[list(c), e, list(evs), b] for (c, e), (evs, b) in self.rules.items()],
+            "rules": [[list(c), e, list(r[0]), r[1]] + list(r[2:]) for (c, e), r in self.rules.items()],
             "rets": [[list(c), repr(v)] for c, v in self.rets.items()],
         }
 
@@ -138,7 +138,7 @@ class Plan:
     def from_json(d):
         return Plan(
             faults={(tuple(c), t, i): k for c, t, i, k in d.get("faults", [])},
-            rules={(tuple(c), e): (tuple(evs), b) for c, e, evs, b in d.get("rules", [])},
+            rules={(tuple(r[0]), r[1]): (tuple(r[2]), r[3]) + tuple(r[4:]) for r in d.get("rules", [])},
             rets={tuple(c): eval(v) for c, v in d.get("rets", [])},  # noqa: S307
         )
 
@@ -296,13 +296,14 @@ class Env:
         plan = self.plan
         rule = plan.rules.get((rec.cid, rec.event))
         if rule is not None:
-            evs, budget = rule
+            evs, budget = rule[0], rule[1]
+            same = len(rule) > 2      # identical nested sends (same tag, same kwargs)
             key = (rec.cid, rec.event)
             if self.fired[key] < budget:
                 self.fired[key] += 1
                 sm = kwargs.get("machine")
                 for k, ev in enumerate(evs):
-                    tag = child_tag(rec.tag, rec.cid, k)
+                    tag = child_tag(rec.tag, rec.cid, 0 if same else k)
                     try:
                         r = self.do_send(sm, ev, tag)
                     except Exception as e:
@@ -362,6 +363,12 @@ class Env:
             for i in range(points):
                 await self.point((prov, name, rec.n, i))
             return await self._asteps(rec, kwargs)
+        except BaseException as e:
+            if type(e).__name__ == "CancelledError" and points:
+                # a callback that cleans up asynchronously when it is cancelled: whoever cancels
+                # it has to wait for it as well
+                await self.point((prov, name, rec.n, "cleanup"))
+            raise
         finally:
             self.end(rec)
 
@@ -370,13 +377,14 @@ class Env:
         plan = self.plan
         rule = plan.rules.get((rec.cid, rec.event))
         if rule is not None:
-            evs, budget = rule
+            evs, budget = rule[0], rule[1]
+            same = len(rule) > 2      # identical nested sends (same tag, same kwargs)
             key = (rec.cid, rec.event)
             if self.fired[key] < budget:
                 self.fired[key] += 1
                 sm = kwargs.get("machine")
                 for k, ev in enumerate(evs):
-                    tag = child_tag(rec.tag, rec.cid, k)
+                    tag = child_tag(rec.tag, rec.cid, 0 if same else k)
                     try:
                         r = self.do_send(sm, ev, tag)
                         if inspect.isawaitable(r):
